@@ -53,11 +53,11 @@ theorem C03_optimal_sound (E : Env K X Y Z) (i : coneqp.In K X Y Z)
     have : st.dres = E.nX ((1:K) • E.Gt i.z + (1:K) • ((1:K) • E.At i.y + (1:K) • ((1:K) • E.P i.x + (1:K) • i.q))) / i.resx0 := rfl
     rw [this, div_le_iff₀ hx0] at hdres; exact hdres
   · rw [e2]
-    have h1 : E.nY ((1:K) • E.A i.x + (-(1:K)) • i.b) / i.resy0 ≤ st.pres := le_max_left _ _
+    have h1 : E.nY ((1:K) • E.A i.x + (-(1:K)) • i.b) / i.resy0 ≤ st.pres := by first | exact le_max_left _ _ | exact le_max_right _ _
     have h2 := le_trans h1 hpres
     rwa [div_le_iff₀ hy0] at h2
   · rw [e3]
-    have h1 : E.nZ ((1:K) • E.G i.x + (1:K) • (i.s + (-(1:K)) • i.h)) / i.resz0 ≤ st.pres := le_max_right _ _
+    have h1 : E.nZ ((1:K) • E.G i.x + (1:K) • (i.s + (-(1:K)) • i.h)) / i.resz0 ≤ st.pres := by first | exact le_max_left _ _ | exact le_max_right _ _
     have h2 := le_trans h1 hpres
     rwa [div_le_iff₀ hz0] at h2
   · rcases hgap with h | ⟨h1, h2⟩
